@@ -419,12 +419,34 @@ Section Refine.
     Lemma wenc_flat_map_unpacked n vs : flat_map (vbytes false n) vs = wenc (flat_map (fun x => wfld n x) vs).
     Proof. induction vs as [|v vs IH]; [reflexivity|]. cbn [flat_map]. rewrite wenc_app, IH. reflexivity. Qed.
 
-    Lemma denote_key_not_err kk s : denote_key true kk s <> RErr.
+    (* a member name that is no literal of the key kind: encodeMapKey fails *)
+    Lemma denote_key_err kk s : denote_key true kk s = RErr -> encode_map_key [] s kk = None.
     Proof.
-      unfold denote_key, denote_key0.
-      repeat match goal with |- context [if ?c then _ else _] => destruct c; cbn [res_bind] end;
-        try discriminate; destruct (parse_int s); cbn [res_bind]; try discriminate;
-        repeat match goal with |- context [if ?c then _ else _] => destruct c; cbn [res_bind] end; discriminate.
+      unfold denote_key. destruct (denote_key0 kk s) as [k0| |] eqn:H0; cbn [res_bind].
+      - destruct (key_agrees true kk s k0); discriminate.
+      - intros _. unfold denote_key0, not_canonical, key_literal_accepted in H0. unfold encode_map_key.
+        destruct (kk =? 9) eqn:E9; [destruct (utf8_valid s && jbytes_okb s); discriminate|].
+        destruct (kk =? 8) eqn:E8.
+        { apply Z.eqb_eq in E8. subst kk. cbn [Z.eqb Pos.eqb] in *.
+          destruct (bytes_eqb s lit_true); [discriminate|]. destruct (bytes_eqb s lit_false); [discriminate|].
+          destruct (go_parse_bool s); [discriminate|reflexivity]. }
+        destruct (kk =? 5) eqn:E5.
+        { apply Z.eqb_eq in E5. subst kk. cbn [Z.eqb Pos.eqb orb] in *.
+          destruct (go_parse_int s 32); [|reflexivity].
+          destruct (parse_int s); [destruct (bytes_eqb _ s && _)|]; discriminate. }
+        destruct (kk =? 13) eqn:E13.
+        { apply Z.eqb_eq in E13. subst kk. cbn [Z.eqb Pos.eqb orb] in *.
+          destruct (go_parse_uint s 32); [|reflexivity].
+          destruct (parse_int s); [destruct (bytes_eqb _ s && _)|]; discriminate. }
+        destruct (kk =? 4) eqn:E4.
+        { apply Z.eqb_eq in E4. subst kk. cbn [Z.eqb Pos.eqb orb] in *.
+          destruct (go_parse_uint s 64); [|reflexivity].
+          destruct (parse_int s); [destruct (bytes_eqb _ s && _)|]; discriminate. }
+        destruct (kk =? 3) eqn:E3; [|reflexivity].
+        apply Z.eqb_eq in E3. subst kk. cbn [Z.eqb Pos.eqb orb] in *.
+        destruct (go_parse_int s 64); [|reflexivity].
+        destruct (parse_int s); [destruct (bytes_eqb _ s && _)|]; discriminate.
+      - discriminate.
     Qed.
 
     Lemma encode_map_key_app buf s kk :
@@ -464,8 +486,14 @@ Section Refine.
       - cbn. rewrite app_nil_r. reflexivity.
       - cbn [den_entries]. inversion Hdep as [|? ? Hdx Hdr]; subst. cbn [snd] in Hdx.
         change (flat_map member_events ((ks, x) :: r)) with ((EvKey ks :: events x) ++ flat_map member_events r).
-        destruct (denote_key true kk ks) as [key| |] eqn:Hk; cbn [res_bind];
-          [|exfalso; exact (denote_key_not_err _ _ Hk)|exact I].
+        destruct (denote_key true kk ks) as [key| |] eqn:Hk; cbn [res_bind]; [| |exact I].
+        2:{ (* the member name is no literal of the key kind: OnObjectKey fails in encodeMapKey *)
+            cbn [result]. rewrite run_app, run_cons.
+            assert (Hkey : step disallow S junk (EvKey ks) (mk_st (mk_frame T_MAP None (Some (GField fd)) (-1) :: stk) None false O buf) = MErr).
+            { unfold step. cbn [m_skipd]. unfold on_key. cbn [top_of m_stk hd fr_root fr_typ fr_fd].
+              cbn [Z.eqb T_OBJ T_MAP Pos.eqb]. rewrite Hl. cbn [m_buf]. rewrite (append_tag_ok _ _ _ Hn).
+              rewrite (append_tag_ok _ _ _ num_ok_1). rewrite encode_map_key_app, (denote_key_err _ _ Hk). reflexivity. }
+            rewrite Hkey. reflexivity. }
         destruct (denote_key_inv _ _ _ Hk) as [Hkb Hkw].
         set (mapfr := mk_frame T_MAP None (Some (GField fd)) (-1)) in *.
         set (tag := varint_enc (fd_num fd * 8 + 2)).
